@@ -53,6 +53,20 @@ type Report struct {
 	NotDecided  string
 	Trusted     []string
 	Assumptions []string
+
+	// alias, when set, is in force while another property's monolithic rule body runs on behalf of this property
+	// (WithAlias): obligations of the rules it names are recorded under the alias, all others are dropped.
+	alias map[string]string
+}
+
+// WithAlias runs body with obligations and rule declarations filtered and renamed: rule ids in the map are recorded
+// under their alias, every other rule id is ignored. Used to share single rules of a property whose rules live in one
+// function (C16.R1 as C18.R11, C16.R3 as C15.R10).
+func (r *Report) WithAlias(alias map[string]string, body func()) {
+	old := r.alias
+	r.alias = alias
+	defer func() { r.alias = old }()
+	body()
 }
 
 func New(property, tier string, seed int) *Report {
@@ -62,6 +76,9 @@ func New(property, tier string, seed int) *Report {
 
 // Rule declares a rule with its documentation and the minimum number of instances confirmed by hand.
 func (r *Report) Rule(rule, doc string, min int) {
+	if r.alias != nil {
+		return // the sharing property declares the aliased rule itself
+	}
 	r.RuleMin[rule] = min
 	r.RuleDoc[rule] = doc
 }
@@ -69,6 +86,13 @@ func (r *Report) Rule(rule, doc string, min int) {
 // Set records the outcome of an obligation. A violation or undecided verdict is sticky: once any
 // path violates an instance, later discharges of the same key do not clear it.
 func (r *Report) Set(rule, key, pos string, st Status, how string, path, assumed []string) *Obligation {
+	if r.alias != nil {
+		a, ok := r.alias[rule]
+		if !ok {
+			return &Obligation{}
+		}
+		rule = a
+	}
 	k := rule + "|" + key
 	if o, ok := r.byKey[k]; ok {
 		if o.Status == Discharged && st != Discharged {
